@@ -7,6 +7,7 @@
   the value outside the Python domain is stated at the definition.
 -/
 import Phil.Basic
+import Phil.Conv
 namespace Phil.Py
 
 /-- `len(x)` -/
@@ -178,5 +179,92 @@ theorem index_zero_cons (c : Char) (s : Str) : index (c :: s) 0 = [c] := by
   simp [index, sliceFrom]
 theorem index_zero_nil : index [] 0 = [] := by
   simp [index, sliceFrom]
+
+/-! ### dynamically typed values, numbers, raising (converters' decision logic)
+
+A Python object is a `PVal` (Phil/Conv.lean): `None`, `Auto`, a `bool`, a number (`PNum`: `int` | finite `float` as an
+exact ratio | `inf` | `-inf` | `nan`), a `str`, a list.  A function that may raise returns `R α = Except Err α`;
+`raise RuntimeError(msg)` is `.error (.runtime site line)` with the harness's SITE name of the message and the line
+of `words[0].where_str()` if the message ends with it; a failed `assert` is `.error (.stray "AssertionError" f)`. -/
+
+def isNone : PVal → Bool | .none => true | _ => false
+def isAuto : PVal → Bool | .auto => true | _ => false
+/-- `isinstance(x, int)` (a `bool` is an `int`) -/
+def isinstance_int : PVal → Bool | .num (.int _) => true | .bool _ => true | _ => false
+/-- `isinstance(x, float)` -/
+def isinstance_float : PVal → Bool
+  | .num (.int _) => false | .num _ => true | _ => false
+/-- `math.isfinite(x)`; a ratio with denominator 0 is not a number of the domain -/
+def isfinite : PVal → Bool
+  | .num (.int _) => true | .num (.flt _ d) => d != 0 | .bool _ => true | _ => false
+/-- round-half-even of `n / d` (`d > 0`) -/
+def roundRatio (n : Int) (d : Nat) : Int :=
+  let q := n / (d : Int)
+  let r := n % (d : Int)
+  if 2 * r < d then q else if 2 * r > d then q + 1 else if q % 2 == 0 then q else q + 1
+/-- `round(x)` (one argument: an `int`, ties to even); non-finite / non-numbers raise in Python, unchanged here -/
+def round : PVal → PVal
+  | .num (.flt n d) => .num (.int (roundRatio n d))
+  | .bool b => .num (.int (if b then 1 else 0))
+  | v => v
+/-- `int(x)`: truncation toward zero -/
+def int : PVal → PVal
+  | .num (.flt n d) => .num (.int (Int.tdiv n (d : Int)))
+  | .bool b => .num (.int (if b then 1 else 0))
+  | v => v
+/-- the number a value compares as (`True` is 1) -/
+def numOf : PVal → Option PNum
+  | .num n => some n | .bool b => some (.int (if b then 1 else 0)) | _ => Option.none
+/-- `a == b` on numbers: exact (cross-multiplied), `nan` equals nothing; other objects: never (outside the subset) -/
+def numEq : PNum → PNum → Bool
+  | .int a, .int b => a == b
+  | .int a, .flt n d => a * (d : Int) == n
+  | .flt n d, .int a => a * (d : Int) == n
+  | .flt n d, .flt m e => n * (e : Int) == m * (d : Int)
+  | .inf, .inf => true | .ninf, .ninf => true
+  | _, _ => false
+def veq (a b : PVal) : Bool :=
+  match numOf a, numOf b with
+  | some x, some y => numEq x y
+  | _, _ => false
+/-- `a >= b`, `a <= b` on numbers (exact mixed comparison, anything with `nan` is False: `pyLe` of Phil/Conv.lean);
+    a non-number operand raises TypeError in Python — outside the subset, False here -/
+def ge (a b : PVal) : Bool :=
+  match numOf a, numOf b with
+  | some x, some y => pyLe y x
+  | _, _ => false
+def le (a b : PVal) : Bool :=
+  match numOf a, numOf b with
+  | some x, some y => pyLe x y
+  | _, _ => false
+/-- a `None`-able number attribute as an object -/
+def ofOptNum : Option PNum → PVal | some n => .num n | Option.none => .none
+/-- a `None`-able int attribute where it is used as a number (guarded by `is not None`) -/
+def getInt (o : Option Int) : Int := o.getD 0
+/-- `float(x)` of an int: exact up to 2^53; beyond, CPython rounds or raises OverflowError — outside the modelled
+    domain (`.unsupported`, propagated, not caught) -/
+def float : PVal → R PVal
+  | .num (.int i) => if i.natAbs ≤ 9007199254740992 then .ok (.num (.flt i 1)) else .error (.unsupported "float(int) beyond 2^53")
+  | .bool b => .ok (.num (.flt (if b then 1 else 0) 1))
+  | v => .ok v
+/-- `except Cls:` catches the stray exceptions of that class only -/
+def isExc (e : Err) (cls : String) : Bool := match e with | .stray c _ => c == cls | _ => false
+/-- `converters.str_from_words(words)` as an object: `None` | `Auto` | the joined text -/
+def str_from_words (ws : List Word) : PVal :=
+  match strFromWords ws with
+  | .none => .none | .auto => .auto | .str s => .str s | _ => .none
+/-- the text of a `str` object -/
+def strOf : PVal → Str | .str s => s | _ => []
+/-- truth value of an object -/
+def vtruthy : PVal → Bool
+  | .none => false | .auto => true | .bool b => b | .num (.int i) => i != 0 | .num (.flt n _) => n != 0
+  | .num _ => true | .str s => !s.isEmpty | .list l => !l.isEmpty | _ => true
+/-- `len(x)` / `for v in x` of a list object -/
+def vlen : PVal → Int | .list l => (l.length : Int) | _ => 0
+def items : PVal → List PVal | .list l => l | _ => []
+/-- line of `words[0].where_str()`; `words` never empty where the code evaluates it -/
+def where_ (ws : List Word) : Option Nat := firstLine ws
+/-- the local `where_str()` helper: `""` if `words is None` else `words[0].where_str()` -/
+def where_opt : Option (List Word) → Option Nat | some ws => firstLine ws | Option.none => Option.none
 
 end Phil.Py
